@@ -151,6 +151,9 @@ impl<V: Hash, S> Hash for HashableHashSet<V, S> {
                 inner_hasher.finish()
             }));
             buffer.sort_unstable();
+            // Length prefix (as for slices and the std collections): without it adjacent
+            // collections hash like their concatenation, e.g. ({a}, {}) like ({}, {a}).
+            hasher.write_usize(buffer.len());
             for v in &*buffer {
                 hasher.write_u64(*v);
             }
@@ -366,6 +369,8 @@ impl<K: Hash, V: Hash, S> Hash for HashableHashMap<K, V, S> {
                 inner_hasher.finish()
             }));
             buffer.sort_unstable();
+            // Length prefix, see `HashableHashSet`.
+            state.write_usize(buffer.len());
             for hash in &*buffer {
                 state.write_u64(*hash);
             }
